@@ -201,6 +201,53 @@ func init() {
 				vOptU64s(m.ChunkSize), m.ChunkKeySize}, nil
 		},
 	}
+
+	// ---------------------------------------------------------------- datatype message
+	c11Codecs["datatype"] = c11Codec{
+		enc: func(val json.RawMessage, _ *core.Superblock) ([]byte, error) {
+			dt, err := c11Datatype(val)
+			if err != nil {
+				return nil, err
+			}
+			return core.EncodeDatatypeMessage(dt)
+		},
+		dec: func(data []byte, _ *core.Superblock) (interface{}, error) {
+			dt, err := core.ParseDatatypeMessage(data)
+			if err != nil {
+				return nil, err
+			}
+			return c11ValDatatype(dt), nil
+		},
+	}
+}
+
+type c11DT struct {
+	Class   uint8  `json:"class"`
+	Version uint8  `json:"version"`
+	Size    uint32 `json:"size"`
+	CBF     uint32 `json:"cbf"`
+	Props   string `json:"props"`
+}
+
+func (v *c11DT) msg() (*core.DatatypeMessage, error) {
+	props, err := hex.DecodeString(v.Props)
+	if err != nil {
+		return nil, err
+	}
+	return &core.DatatypeMessage{Class: core.DatatypeClass(v.Class), Version: v.Version, Size: v.Size,
+		ClassBitField: v.CBF, Properties: props}, nil
+}
+
+func c11Datatype(val json.RawMessage) (*core.DatatypeMessage, error) {
+	var v c11DT
+	if err := json.Unmarshal(val, &v); err != nil {
+		return nil, err
+	}
+	return v.msg()
+}
+
+func c11ValDatatype(dt *core.DatatypeMessage) interface{} {
+	return vl{uint8(dt.Class), dt.Version, dt.Size, dt.ClassBitField, vBytes(dt.Properties)}
 }
 
 func c11ValDataspace(ds *core.DataspaceMessage) interface{} {
